@@ -64,6 +64,7 @@ def _update_progset(asd_vals, mapping, progset):
     #             baseline - par,pop
     #             outcome - par,pop,program
     # - progset : ProgramSet to modify, should have only one time
+    modified_covouts = dict()
     for x, target in zip(asd_vals, mapping):
         if target[0] == "unit_cost":
             assert len(progset.programs[target[1]].unit_cost.vals) == 1
@@ -73,8 +74,12 @@ def _update_progset(asd_vals, mapping, progset):
             progset.programs[target[1]].capacity_constraint.vals[0] = x
         elif target[0] == "baseline":
             progset.covouts[(target[1], target[2])].baseline = x
+            modified_covouts[(target[1], target[2])] = progset.covouts[(target[1], target[2])]
         elif target[0] == "outcome":
             progset.covouts[(target[1], target[2])].progs[target[3]] = x
+            modified_covouts[(target[1], target[2])] = progset.covouts[(target[1], target[2])]
+    for covout in modified_covouts.values():
+        covout.update_outcomes()  # The cached deltas and combination outcomes depend on the baseline and outcomes
 
 
 def _prepare_bounds(progset, unit_cost_bounds, baseline_bounds, capacity_bounds, outcome_bounds):
